@@ -128,6 +128,7 @@ type pipeSpec struct {
 
 var pipeSpecs = map[string]pipeSpec{
 	"toma":     {"sam.blockToFastaRecord", "fastaio.WriteAlignment", 0},
+	"tomawrap": {"sam.blockToFastaRecord", "fastaio.WriteAlignment", 0},
 	"samvar":   {"sam.getVariantsSam", "variants.WriteVariants", 1},
 	"variants": {"variants.getVariants", "variants.WriteVariants", 1},
 	"snps":     {"snps.getSNPs", "snps.writeOutput", 1},
@@ -160,6 +161,8 @@ func pipeCall(cmd string, n, threads, badAt int, w *failWriter) (error, bool) {
 		switch cmd {
 		case "toma":
 			return sam.ToMultiAlign(bytes.NewReader(samData), w, -1, -1, -1, false, threads)
+		case "tomawrap":
+			return sam.ToMultiAlign(bytes.NewReader(samData), w, 10, -1, -1, false, threads)
 		case "samvar":
 			return sam.Variants(bytes.NewReader(samData), bytes.NewReader(refFa), true, bytes.NewReader(pipeGb), "gb", w, -1, -1, false, 0.0, false, threads)
 		case "variants":
@@ -171,6 +174,8 @@ func pipeCall(cmd string, n, threads, badAt int, w *failWriter) (error, bool) {
 		case "closest":
 			return closest.Closest(bytes.NewReader(msa), bytes.NewReader(msa), "raw", w, threads)
 		case "closestn":
+			return closest.ClosestN(3, -1.0, bytes.NewReader(msa), bytes.NewReader(msa), "snp", w, false, threads)
+		case "closestntable":
 			return closest.ClosestN(3, -1.0, bytes.NewReader(msa), bytes.NewReader(msa), "snp", w, true, threads)
 		case "toprank":
 			return updown.TopRanking(bytes.NewReader(msa), bytes.NewReader(msa), bytes.NewReader(refFa), w, false,
@@ -197,7 +202,7 @@ func splitRecords(cmd, out string, hdrLines int) (string, map[int]string, []int)
 	recs := map[int]string{}
 	order := []int{}
 	cur := -1
-	fasta := cmd == "toma" || cmd == "topa"
+	fasta := cmd == "toma" || cmd == "tomawrap" || cmd == "topa"
 	for _, l := range ls {
 		if fasta {
 			if strings.HasPrefix(l, ">") {
